@@ -28,7 +28,7 @@ impl core::ops::Add<C> for C { type Output = C; #[verifier::external_body] fn ad
 impl SubSpecImpl<C> for C { open spec fn obeys_sub_spec() -> bool { false } open spec fn sub_req(self, rhs: C) -> bool { true } open spec fn sub_spec(self, rhs: C) -> C { arbitrary() } }
 impl core::ops::Sub<C> for C { type Output = C; #[verifier::external_body] fn sub(self, rhs: C) -> (r: C) ensures r@ == csub(self@, rhs@) { unimplemented!() } }
 impl MulSpecImpl<C> for C { open spec fn obeys_mul_spec() -> bool { false } open spec fn mul_req(self, rhs: C) -> bool { true } open spec fn mul_spec(self, rhs: C) -> C { arbitrary() } }
-impl core::ops::Mul<C> for C { type Output = C; #[verifier::external_body] fn mul(self, rhs: C) -> (r: C) ensures r@ == cmul(self@, rhs@) { unimplemented!() } }
+impl core::ops::Mul<C> for C { type Output = C; #[verifier::external_body] fn mul(self, rhs: C) -> (r: C) ensures r@ == cmul(self@, rhs@), r@ == cmul(rhs@, self@) { unimplemented!() } }
 // division: the divisor must not be zero (an obligation at every call site: 0/0 and x/0 are NaN/inf in floating point)
 impl DivSpecImpl<C> for C { open spec fn obeys_div_spec() -> bool { false } open spec fn div_req(self, rhs: C) -> bool { rhs@ != czero() } open spec fn div_spec(self, rhs: C) -> C { arbitrary() } }
 impl core::ops::Div<C> for C { type Output = C; #[verifier::external_body] fn div(self, rhs: C) -> (r: C) ensures r@ == cdiv(self@, rhs@) { unimplemented!() } }
